@@ -132,6 +132,8 @@ Qed.
 Lemma frame_do_input al cur ms tok ms' : do_input al cur (Ok ms) tok = Ok ms' -> frame cur ms ms'.
 Proof.
   intro H. unfold do_input in H. cbn [bind] in H. destruct (pni tok) as [[p i]|]; [|discriminate]. cbn [bind] in H.
+  destruct (input_io cur p ms).
+  { inversion H; subst. eapply frame_trans; [|apply frame_grow_port]. apply frame_upd_model; intros x Hx; exact Hx. }
   eapply frame_trans; [|eapply frame_upd_model_res; [exact H|intros; eapply connect_to_name; eauto]].
   eapply frame_trans; [|apply frame_grow_port].
   destruct (find_port _ _); [apply frame_upd_model; intros x Hx; exact Hx|apply frame_add_port].
@@ -267,6 +269,9 @@ Qed.
 Lemma keepI_do_input al cur ms tok ms' : do_input al cur (Ok ms) tok = Ok ms' -> keepI cur ms ms'.
 Proof.
   intro H. unfold do_input in H. cbn [bind] in H. destruct (pni tok) as [[p i]|]; [|discriminate]. cbn [bind] in H.
+  destruct (input_io cur p ms).
+  { inversion H; subst. eapply keepI_trans; [|apply keepI_grow_port].
+    apply keepI_upd_any; [intros x Hx; exact Hx|intro x; repeat split]. }
   set (ms1 := match find_port _ _ with None => _ | Some _ => _ end) in H.
   assert (K1 : keepI cur ms ms1).
   { unfold ms1. destruct (find_port _ _); [|apply keepI_add_port].
